@@ -109,7 +109,7 @@ def replay(cases, timeout=3000):
 
 
 SHORT = [0, 0.3, 1, 3, 20, 2]
-EXPIRING = [3, 20, 1, 2, 0.3, 0]
+EXPIRING = [3, 0.3, 20, 0, 1, 2]
 
 
 def timeouts(plan, sched, expiring=None):
@@ -129,7 +129,10 @@ def timeouts(plan, sched, expiring=None):
                 out.append(SHORT[i % len(SHORT)])
             elif end != "pollret-ready":
                 # the wait expires: the first expiring call of a schedule gets 3 ms, then 20, 1, 2, 0.3, 0
-                out.append((expiring or EXPIRING)[nexp % len(expiring or EXPIRING)])
+                # (rotated by the schedule's length, so that across schedules every duration - sub-millisecond ones
+                # included - meets a first expiry)
+                ex = expiring or EXPIRING
+                out.append(ex[(nexp + len(sched)) % len(ex)])
                 nexp += 1
             else:
                 out.append(8000)
@@ -186,6 +189,11 @@ def judge(case, v):
         i = v.get("diverged_in_call", -1)
         if 0 <= i < len(case["plan"]) and case["plan"][i] == "try":
             return "try_recv (call %d) went to sleep in the kernel: %s" % (i, v.get("why")), False
+        # a timed receive sleeps in poll() (and, once a message has begun, in the follow-up reads) - never in recvmsg on
+        # the channel's socket: that wait has no timeout
+        if 0 <= i < len(case["plan"]) and case["plan"][i] == "timeout" and int(mk.group(1)) == 47:
+            return "try_recv_timeout (call %d, %s ms) went to sleep in recvmsg, a wait without a timeout: %s" % (
+                i, case.get("tmo", [None] * (i + 1))[i], v.get("why")), False
     # the model ends a timed wait because a packet or the hang-up is there (the sender's call has returned), yet the
     # receiving thread stayed in its wait for another 5 s: it does not "return early with the message or the disconnection"
     if (not v.get("matched")) and "stays asleep in the kernel at 'pollret-ready'" in v.get("why", ""):
